@@ -191,7 +191,7 @@ def des_core_cases(tier, rng, ops=('des.enc', 'des.dec')):
         for k2 in parity_variants(k, rng):
             for op in ops: yield '%s %s %s' % (op, hx(k2), hx(m)), 'des.parity'
         for op in ops: yield '%s %s %s' % (op, hx(k), hx(m)), 'des.parity'
-    for _ in range(300 if q else 6000):
+    for _ in range(1500 if q else 12000):
         k = rb(rng, 8); m = rb(rng, 8)
         for op in ops: yield '%s %s %s' % (op, hx(k), hx(m)), 'des.random'
 
